@@ -4,5 +4,9 @@ set -e
 cd /verif
 export CARGO_NET_OFFLINE=true
 mkdir -p target run evidence
+if [ ! -s fixtures/tls/cert.pem ]; then
+  mkdir -p fixtures/tls
+  openssl req -x509 -newkey rsa:2048 -nodes -keyout fixtures/tls/key.pem -out fixtures/tls/cert.pem -days 3650 -subj "/CN=localhost" -addext "subjectAltName=DNS:localhost,IP:127.0.0.1" >/dev/null 2>&1 || echo "TLS fixture generation failed (TLS dimensions will be skipped)"
+fi
 cargo build --release --offline --features verif_hooks --bin pgcat --manifest-path /repo/Cargo.toml --target-dir /verif/target/rel 2>&1 | tail -2
 cargo build --release --offline --manifest-path /verif/harness/Cargo.toml 2>&1 | tail -2
